@@ -72,8 +72,11 @@ ROUND3 = {
     "C19": " Also: the REST front ends never consult the instance's own queue identity; callbacks go to the token's reply queue unchanged.",
     "C20": " Also: UpdateStateMachine assigns the record back before answering 200.",
 }
+RV = (" Also (Cnn.RV): every function whose behaviour is the subject of this property is identical to its reviewed version or proved interchangeable with it "
+      "(decision-table equivalence against the reviewed copy in sa/reference: same effects in the same order under every assignment of the conditions, same exits, same values read afterwards); "
+      "a difference with a witness is reported. Refactorings that are provably behaviour-preserving are normalised away before any rule runs.")
 NOTE = ("Trusted base: CPython ast/symtable; broker redelivery; third-party libraries behave as documented; engine-internal calls do not raise "
-        "(exception edges come from the may-raise table in sa/flow.py). The check reads /repo source only and never imports or runs it. "
+        "(exception edges come from the may-raise table in sa/flow.py); the decision-table equivalence of sa/dtable.py treats conditions as independent atoms and calls on different receivers as non-interfering. The check reads /repo source only and never imports or runs it. "
         "A green result means the listed structural clauses hold on all paths of the current source, not that the behaviour holds.")
 
 
@@ -90,9 +93,9 @@ def main():
                 "evidence_file": "evidence/%s.json" % pid,
                 "replay_cmd_template": "./check --replay {path}",
                 "engine": "sa",
-                "level_claimed": {"category": "other", "text": LEVEL_TEXT[pid] + ROUND3.get(pid, ""), "design_ref": "DESIGN.md section 5, " + pid},
+                "level_claimed": {"category": "other", "text": LEVEL_TEXT[pid] + ROUND3.get(pid, "") + RV, "design_ref": "DESIGN.md section 5, " + pid},
                 "level_note": NOTE,
-                "technique": "static analysis: " + TECHNIQUE[pid],
+                "technique": "static analysis: " + TECHNIQUE[pid] + "; equivalence-guarded normalisation and reviewed-behaviour comparison by decision tables over the AST",
             })
         else:
             na.append({"property_id": pid, "reason": "check not built yet (build in progress; see DESIGN.md section 5)"})
@@ -103,7 +106,7 @@ def main():
                   "baseline_off_cmd": "cd /repo && /venv/bin/python -m pytest -ra -q -p no:cacheprovider --timeout=900 --continue-on-collection-errors",
                   "source_commits": [], "add_only": True},
         "engines": [{"name": "sa", "path": "sa/", "serves_properties": [c["property_id"] for c in checks],
-                     "kind_free_text": "repository-specific static analyser (stdlib ast/symtable): loader+resolver, statement CFG with exception edges, path-sensitive typestate engine with callee contracts, constant folder, JSON-kind lattice, regex AST reader, sibling differ"}],
+                     "kind_free_text": "repository-specific static analyser (stdlib ast/symtable): loader+resolver, statement CFG with exception edges, path-sensitive typestate engine with callee contracts, constant folder, JSON-kind lattice, decision-table equivalence engine, equivalence-guarded normaliser toward the reviewed reference, regex AST reader, sibling differ"}],
         "checks": checks,
         "notes": "All checks are static (read /repo's current working tree, never import or run it). known_findings.json lists reproduced genuine defects; fix: commits in /repo are listed there with status fixed.",
         "not_applicable": na,
